@@ -10,13 +10,15 @@ From AnySync Require Export Model.AclKeys Model.AclKeysTree.
 Inductive case :=
 | CHist (owner : acct) (root : rid) (U : list acct) (steps : list step)
 | CTree (t : tobs)
-| COpen (rs : list round).   (* long-lived open trees of all accounts across one history, Model/AclKeysTree.v *)
+| COpen (rs : list round)    (* long-lived open trees of all accounts across one history, Model/AclKeysTree.v *)
+| CIlv (x : iobs).           (* one tree write racing one ACL record injected at a crossing of the ACL lock *)
 
 Definition model_ok (c : case) : bool :=
   match c with
   | CHist owner root U steps => run_matches false (kinit owner root U) steps
   | CTree t => tree_model_ok t
   | COpen rs => open_tree_model_ok rs
+  | CIlv x => ilv_model_ok x
   end.
 
 Definition spec_ok (c : case) : bool :=
@@ -24,6 +26,7 @@ Definition spec_ok (c : case) : bool :=
   | CHist owner root U steps => spec_C05 owner root steps
   | CTree t => spec_C05_tree t
   | COpen rs => spec_C05_open rs
+  | CIlv x => spec_C05_ilv x
   end.
 
 Fixpoint check_from (i : N) (l : list case) : list (N * N) :=
